@@ -891,6 +891,8 @@ public:
      */
    void Plunder(Queue & rhs) MUSCLE_NOEXCEPT
    {
+      if (&rhs == this) return;  // plundering myself must not leave me empty
+
       if (rhs._queue == rhs._smallQueue)
       {
          const uint32 rhsSize = rhs.GetNumItems();  // guaranteed to be small enough for the _smallQueue
